@@ -30,7 +30,7 @@ func TestMain(m *testing.M) {
 	vstat.Main(m)
 }
 
-var accountKinds = []string{"transfer", "transfer", "token", "call-revert", "call-forward", "call-fwdrevert", "call-killrevert", "pay-suicider", "call-suicide", "call-issue", "create", "prefund-create"}
+var accountKinds = []string{"transfer", "transfer", "token", "call-revert", "call-forward", "call-fwdrevert", "call-killrevert", "pay-suicider", "call-suicide", "call-issue", "create", "prefund-create", "create-and-die"}
 
 // checkSupply is the conservation oracle: for the native coin and every token, everything held by accounts
 // plus the generator-known value of unspent confidential outputs equals the genesis supply plus what token
